@@ -289,6 +289,7 @@ def finish(report, ctx, level, explanation, trusted_base, checker_cmd):
         'known_findings_reproduced': [x['key'] for x in report.known],
     }
     cov.update(report.extra)
+    cov['second_solver'] = dict(CROSS, solver='cvc5 1.0.3 on the SMT-LIB2 export of obligation-level queries', sampling_rate=cross_rate())
     ev = {
         'property_id': report.pid,
         'tier': report.tier,
@@ -315,3 +316,72 @@ def finish(report, ctx, level, explanation, trusted_base, checker_cmd):
                 print('INCONCLUSIVE %s: %s' % (o.oid, (o.detail or '')[:300]))
         return 2
     return 0
+
+
+# ------------------------------------------------------------------ second solver (cvc5) on obligation-level queries
+CROSS = {'asked': 0, 'agree': 0, 'no_verdict': 0, 'disagree': 0, 'seconds': 0.0}
+_cross_n = [0]
+
+
+def cross_rate():
+    v = os.environ.get('VERIF_CROSS')
+    if v is not None:
+        return float(v)
+    return 1.0 if os.environ.get('VERIF_TIER_EFFECTIVE', 'quick') == 'thorough' else 0.1
+
+
+def _portable(txt):
+    """z3's non-standard (bvumul_noovfl a b) -> (not (bvumulo a b)) (SMT-LIB 2.7 / cvc5 name)"""
+    key = '(bvumul_noovfl '
+    while True:
+        i = txt.find(key)
+        if i < 0:
+            return txt
+        d, j = 0, i
+        while True:
+            c = txt[j]
+            if c == '(':
+                d += 1
+            elif c == ')':
+                d -= 1
+                if d == 0:
+                    break
+            j += 1
+        txt = txt[:i] + '(not (bvumulo ' + txt[i + len(key):j] + '))' + txt[j + 1:]
+
+
+def cross_check(solver, verdict, cap_s=30):
+    """re-decide an obligation-level query with cvc5 (SMT-LIB2 text exported by z3); a disagreement is Inconclusive.
+    Sampled (every 1/rate-th query; all of them in the thorough tier)."""
+    import subprocess
+    import time as _t
+    rate = cross_rate()
+    if rate <= 0:
+        return
+    _cross_n[0] += 1
+    if rate < 1.0 and (_cross_n[0] % max(1, int(round(1.0 / rate)))) != 1:
+        return
+    try:
+        txt = '(set-logic ALL)\n' + _portable(solver.to_smt2())
+    except Exception:      # noqa
+        return
+    t = _t.time()
+    try:
+        p = subprocess.run(['cvc5', '--lang', 'smt2', '--tlimit=%d' % (cap_s * 1000)], input=txt, capture_output=True, text=True, timeout=cap_s + 10)
+        out = (p.stdout or '').strip().splitlines()
+    except Exception:      # noqa
+        out = []
+    CROSS['seconds'] += _t.time() - t
+    CROSS['asked'] += 1
+    ans = out[0].strip() if out else ''
+    if ans not in ('sat', 'unsat') or any('(error' in l for l in out):
+        CROSS['no_verdict'] += 1
+        if os.environ.get('VERIF_CROSS_DEBUG'):
+            open('/tmp/cx_fail.smt2', 'w').write(txt)
+            open('/tmp/cx_fail.out', 'w').write('\n'.join(out) + '\n' + (p.stderr if out is not None else ''))
+        return
+    if ans == str(verdict):
+        CROSS['agree'] += 1
+    else:
+        CROSS['disagree'] += 1
+        raise Inconclusive('solver disagreement: z3 says %s, cvc5 says %s' % (verdict, ans))
